@@ -59,11 +59,15 @@ type opResult struct {
 	Snap   string
 	Panic  string
 	Stale  string // a WalkerNode handed out by the walk no longer reads what it read at its visit
+	Tamper string // the call wrote into a slice that belongs to the caller
 }
 
 func (r *opResult) diff(o *opResult) string {
 	if r.Stale != o.Stale {
 		return fmt.Sprintf("retained-nodes %q vs %q", r.Stale, o.Stale)
+	}
+	if r.Tamper != o.Tamper {
+		return fmt.Sprintf("callers-slice-modified %q vs %q", r.Tamper, o.Tamper)
 	}
 	if r.Panic != o.Panic {
 		return fmt.Sprintf("panic %q vs %q", r.Panic, o.Panic)
@@ -246,12 +250,10 @@ func execCall(h *hCall, root *gtree.Node, jail string, idx int, yield bool, rw *
 	if !yield && h.Op.Massive {
 		settleGoroutines()
 	}
-	if t := tampered(opts, extsGiven, h.Op.Exts); t != "" && res.Stale == "" {
-		res.Stale = t
-	}
 	res.Out = string(wr.buf)
 	res.Visits = cb.visits
 	res.Stale = cb.staleNodes()
+	res.Tamper = tampered(opts, extsGiven, h.Op.Exts)
 	if target != "" {
 		res.Snap = snapString(snapshot(target))
 	}
@@ -296,6 +298,7 @@ func runHistory(c *Ctx, name string, calls []*hCall, nTasks int, sim bool, jail 
 		out.Returned = true
 		out.DiskOps = d.Records()
 		c.st.Count("direct.histories")
+		failTampered(c, name, calls)
 		return out
 	}
 	chooser := c.Chooser(name, -1)
@@ -386,7 +389,19 @@ func runHistory(c *Ctx, name string, calls []*hCall, nTasks int, sim bool, jail 
 	if c.keepTrace {
 		c.lastTrace = out.Trace
 	}
+	failTampered(c, name, calls)
 	return out
+}
+
+// failTampered fails the case when a call of the history wrote into one of the caller's
+// own slices (the option list, the extension list): what the caller passes is the
+// caller's, and a later call made with the same values must see them unchanged.
+func failTampered(c *Ctx, name string, calls []*hCall) {
+	for i, h := range calls {
+		if h.Res != nil && h.Res.Tamper != "" {
+			c.Failf(c.Prop+":callers-slice-modified:"+h.Op.Kind, "%s, call %d (%s): %s", name, i, h.Op.Kind, h.Res.Tamper)
+		}
+	}
 }
 
 // genFromRootOp draws a From-Root operation for histories.
